@@ -118,4 +118,14 @@ PROPS = {
         ],
         assumptions=["element and attribute names as produced by the HTML parser (lower case)"],
     ),
+    "C07": dict(
+        gen=["encodings"],
+        trusted=[
+            "translated from the source on every run (tools/gotrans, generator encodings): the six [256]rune tables of font/encoding.go, the name and table of each standardEncoding variable, and the name dispatch of GetEncoding; the theorem encodings_follow_the_annex is re-checked against them",
+            "the reference tables (coq/model/C07_RefEncodings.v) are mine: written from the glyph names of ISO 32000-1 Annex D in code order and the Adobe Glyph List (tools/mk_ref_encodings.py shows the derivation, it reads nothing from /repo); per code a set of acceptable code points, undefined codes accept no character / U+FFFD / the identical control code and the vendor values named in the script. WinAnsi and MacRoman are additionally compared with golang.org/x/text/encoding/charmap in the harness",
+            "modelled after the code: standardEncoding.DecodeString, DecodeUTF16BE/LE, parseCMapData (codespace width, bfchar sections, the token scanner and entry reader of bfrange sections, multi-unit destinations, arrays), hexToUnicode, parseHexToUint32, cmap decodeUTF16BE, CMap.Lookup / LookupString / lookupStringWithWidth incl. the width heuristics, Go's rune-to-UTF-8 conversion. norm.NFC is an oracle (Font.DecodeString = NFC of the path chosen by priority is checked by predicates with x/text in the harness, not in the model)",
+            "NOT modelled: CustomEncoding / Differences arrays, glyph-name lookup, InferEncodingFromFontName, CID fonts and predefined CMaps (cidfont.go), Type1/TrueType font programs",
+        ],
+        assumptions=["CMaps with one code width (the implementation reads the width of the first codespace range only)"],
+    ),
 }
